@@ -217,6 +217,42 @@ class CbmcResult:
         self.clauses = 0
 
 
+def unwindset_for(cfile: str, default_unwind: int) -> str:
+    """per-loop unwinding limits: a translated loop whose head carries a counter bound K (`if (lcN >= K)`) needs K+1
+    unwindings to hit its own BOUND assertion; every other loop keeps the global --unwind."""
+    try:
+        p = subprocess.run(["cbmc", cfile, "--show-loops", "--json-ui"], capture_output=True, text=True, timeout=120)
+        data = json.loads(p.stdout)
+    except Exception:
+        return ""
+    lines = open(cfile).read().split("\n")
+    labels = {}
+    for i, ln in enumerate(lines):
+        m = re.match(r"^ (\w+):;", ln)
+        if m:
+            labels[m.group(1)] = i
+    out = []
+    for item in data:
+        for lp in item.get("loops", []) if isinstance(item, dict) else []:
+            try:
+                ln = int(lp["sourceLocation"]["line"]) - 1
+            except Exception:
+                continue
+            m = re.search(r"goto (\w+);", lines[ln]) if 0 <= ln < len(lines) else None
+            if not m or m.group(1) not in labels:
+                continue
+            tgt = m.group(1)
+            if tgt.endswith("_latch"):
+                tgt = tgt[:-6]
+            if tgt not in labels:
+                continue
+            nxt = lines[labels[tgt] + 1] if labels[tgt] + 1 < len(lines) else ""
+            mk = re.search(r"if \(lc\d+ >= (\d+)\)", nxt)
+            if mk:
+                out.append(f"{lp['name']}:{int(mk.group(1)) + 1}")
+    return ",".join(out)
+
+
 def run_cbmc(cfile: str, unwind: int, timeout: int, extra: List[str] = (), mem_gb: int = 12, cover=False) -> CbmcResult:
     res = CbmcResult()
     cmd = ["cbmc", cfile, "--unwind", str(unwind), "--json-ui", "--no-pointer-check", "--no-built-in-assertions",
@@ -228,6 +264,9 @@ def run_cbmc(cfile: str, unwind: int, timeout: int, extra: List[str] = (), mem_g
     else:
         cmd += ["--unwinding-assertions", "--trace"]
     cmd += list(extra)
+    us = unwindset_for(cfile, unwind)
+    if us:
+        cmd += ["--unwindset", us]
     t0 = time.time()
     shell = f"ulimit -v {mem_gb * 1024 * 1024}; exec timeout {timeout} " + " ".join(cmd)
     try:
